@@ -80,7 +80,11 @@ Definition prim_ok (p : prim_call) : bool :=
   | PIsnull c t r => eqb (pd_isnull c t) r
   | PIsnullAny cs t r => eqb (pd_isnull_any cs t) r
   | PLocSetFrom mask c c2 t r => otable_same (pd_loc_set_from mask c c2 t) r
-  | PMerge how l rt lon ron sfx r => otable_same (pd_merge how l rt lon ron sfx) r
+  | PMerge how l rt lon ron sfx r =>
+      match how with
+      | HInner => frames_same true false (pd_merge how l rt lon ron sfx) r    (* the rows of an inner merge as a multiset: their order is unspecified *)
+      | _ => otable_same (pd_merge how l rt lon ron sfx) r
+      end
   | PSeriesAgg fn vs r => match pd_series_agg fn vs, r with Some a, Some b => val_close a b | None, None => true | _, _ => false end
   | PGroupAgg ks c fn t r =>
       otable_same (rk <- pd_row_keys ks t ;; vals <- pd_col c t ;; g <- pd_grouped_agg rk vals fn ;;
